@@ -100,10 +100,11 @@ def _names(t):
             yield from _names(e)
 
 
-def run(ctx, rep):
+def check_token_source(ctx, rep, RULE="N1"):
+    """N1 (a), shared with C14/K7: the symbols the derivation consumes are enumerate(G(fragment)) built in this decoder() call
+    from the tokenizer's generator -- not a stored / memoised token list.  -> (roles, D, objs, gens, gfuncs)"""
     pt = ctx.pt
     dec = ctx.api("decoder")
-    region = ctx.cg.region(dec)
     from rules import decmodel
     roles = decmodel.find_roles(ctx)
     D = roles["D"]
@@ -139,7 +140,8 @@ def run(ctx, rep):
         if not o.src:
             ok = False
             why.append("enumerate() source unknown")
-    rep.ob("N1", ok and len(objs) == 1, roles["top_call"], dec, construct="token source of the derivation",
+    good = ok and len(objs) == 1
+    rep.ob(RULE, good, roles["top_call"], dec, construct="token source of the derivation",
            how="single iterator enumerate(G(fragment)) created in decoder()", witness="; ".join(why) or None,
            nontrivial=True, key="source/" + ("ok" if ok else "bad"))
     gfuncs = set()
@@ -148,8 +150,20 @@ def run(ctx, rep):
         q = tag.split(":", 1)[1] if ":" in tag else None
         if q and q in ctx.db.funcs:
             gfuncs.add(ctx.db.funcs[q])
-    if not gfuncs:
+    if not gfuncs and good:
         raise AnalysisError("filtering generator not found")
+    return roles, D, objs, gens, gfuncs
+
+
+def run(ctx, rep):
+    pt = ctx.pt
+    dec = ctx.api("decoder")
+    region = ctx.cg.region(dec)
+    roles, D, objs, gens, gfuncs = check_token_source(ctx, rep, "N1")
+    if not gfuncs:
+        # the token source is not the filtering generator (reported above): the remaining rules have no subject
+        rep.note("token source is not the filtering generator: consumer / yield rules skipped")
+        return
     # ---- N1 (b): all consumers (next / for) in the region read that iterator
     allowed = set(objs)
     n_cons = 0
